@@ -358,6 +358,11 @@ def check_saves(spec, obs, ref, run_idx=0):
                         delivered[i] = v
         for i in produced_by(run['outcome'][1]):
             delivered[i] = run['outcome'][1]
+        # every node that ran to a value in this successful run (also a None value) has its artifact
+        executed_ok = {e[1] for e in run['trace'] if e[0] == 'start'} & {x['node'] for x in ref['log'] if x['result'][0] == 'ok'}
+        for i in sorted(executed_ok):
+            if not per.get(json.dumps(['n', i])) and i not in delivered and not ref['flags'].get('has_rec') and not ref['flags'].get('has_oneof'):
+                probs.append('node %d was executed by a successful run but never saved' % i)
         for i, v in delivered.items():
             vals = per.get(json.dumps(['n', i]), [])
             if not vals:
